@@ -12,7 +12,7 @@ import random
 
 from .. import common, identlib
 from ..gen import cfggen
-from ..translate import hashflags
+from ..translate import hashflags, hashsrc
 
 def cfgbuild_refs(v):
     if isinstance(v, dict):
@@ -26,12 +26,14 @@ def cfgbuild_refs(v):
 
 
 PROP = "C01"
-MODULES = ["XpmVerif.Properties.C01", "XpmVerif.Properties.C01Cache"]
+MODULES = ["XpmVerif.Properties.C01", "XpmVerif.Properties.C01Cache", "XpmVerif.Properties.HashSrc"]
 GOLDEN = common.VERIF / "corpus" / "golden_identifiers.json"
 
 
 def prove(ctx):
-    msgs = [hashflags.generate(common.REPO, common.LEAN, probe=identlib.loop_flag_probe(ctx))]
+    msgs = [hashflags.generate(common.REPO, common.LEAN, probe=identlib.loop_flag_probe(ctx)), hashsrc.generate(common.REPO, common.LEAN)]
+    ctx.notes.append(f"translator(hashsrc): {msgs[1][1]}")
+    ctx.count("translator", "hashsrc:" + ("translated" if msgs[1][1].startswith("translated") else "fallback"))
     ctx.notes.append(f"translator(hashflags): {msgs[0][1]}")
     common.check_proofs(ctx, MODULES, translate_msgs=msgs)
 
